@@ -245,7 +245,10 @@ class Gen:
             for k in ops:
                 colty2[k] = "float"
                 order2.append(k)
-            return {"op": "extend", "src": script, "ops": ops, "partition_by": part, "order_by": ob, "reverse": rev}, colty2, order2
+            st = {"op": "extend", "src": script, "ops": ops, "partition_by": part, "order_by": ob, "reverse": rev}
+            if not part and not ob and any(e.endswith("_size()") for e in ops.values()):
+                st["partition_by"] = 1          # `_size()` alone does not imply a window: ask for the whole-table window explicitly
+            return st, colty2, order2
         if kind == "project":
             gb = rng.sample(order, rng.randint(0, min(2, len(order))))
             ops = {}
